@@ -535,6 +535,17 @@ def compute_order(
       block.connect_outgoing(first_op_to_block[last_op.target])
     if last_op.block_target:
       block.connect_outgoing(first_op_to_block[last_op.block_target])
+    # An op that sets up or pops an exception block is not necessarily the
+    # first or last op of its basic block (the SETUP_EXCEPT_311 pseudo-op is
+    # inserted in the middle of a block, and in 3.12 blocks around SEND are
+    # merged). Its handler still has to be part of the block graph, or the
+    # handler's code is silently dropped from the analysis order.
+    for op in block.code[1:-1]:
+      if op.pushes_block() and op.target in first_op_to_block:
+        block.connect_outgoing(first_op_to_block[op.target])
+    for op in block.code[:-1]:
+      if op.block_target in first_op_to_block:
+        block.connect_outgoing(first_op_to_block[op.block_target])
   return cfg_utils.order_nodes(blocks)
 
 
